@@ -760,7 +760,9 @@ def check_C14(cx):
             for rep in range(2):
                 text = b"\n".join(r.choice(pool) for _ in range(r.choice([1, 3, 6])))
                 # chunk fitting switched on and off again before the call: the instance is "without chunk fitting", as a fresh one
-                pre = [[], ["K 0 16", "K 0 0"], ["K 0 9", "K 0 1"], ["K 0 5", "K 0 0"], ["K 0 33", "K 0 1"], []][(len(hists) + rep) % 6]
+                failing = "C 0 %d %s 1" % ([8, 3, 16][(len(hists) + rep) % 3], cases.hexs(b"mov rax, 0x1122334455667788\nadd rax, rbx\nbogus rax\nret"))
+                pre = [[], ["K 0 16", "K 0 0"], ["K 0 9", "K 0 1"], ["K 0 5", "K 0 0"], ["K 0 33", "K 0 1"], [failing],
+                       [failing, failing.replace("C 0", "C 0", 1)], []][(len(hists) + rep) % 8]
                 h = ["N 0 400 cc"] + pre + ["O 0 %d" % p0, "C 0 %d %s 1" % (c, cases.hexs(text)), "G 0", "D 0 0 400",
                      # the same program again: the count is that of the current call only
                      "C 0 %d %s 1" % (c, cases.hexs(text)), "G 0", "A 0 %s" % cases.hexs(b"nop"), "G 0", "F 0",
@@ -822,7 +824,9 @@ def check_C14(cx):
         exp = spec_cross_count(codes, c, p0) if c >= 2 else 0
         exp2 = spec_cross_count(codes, c, p0 + total) if c >= 2 else 0
         ncross += 1 if exp else 0
-        ok = rc == "0" and plain_rc == "0" and off == plain_off and int(dest) == exp and o[4] == o[14] and \
+        # (bytes are compared over [start offset, final offset): an earlier failed call may have left bytes anywhere else)
+        lo_, hi_ = 2 * p0, 2 * int(off) if off.lstrip("-").isdigit() else 0
+        ok = rc == "0" and plain_rc == "0" and off == plain_off and int(dest) == exp and o[4][lo_:hi_] == o[14][lo_:hi_] and \
             rc2 == "0" and int(dest2) == exp2 and o[7].split()[0] == "0"
         if not ok and nviol < 5:
             nviol += 1
@@ -935,6 +939,30 @@ def check_C08(cx):
         h = twin(ops_for)
         hists.append(h)
         meta.append(("long", q, delta, mode))
+    # (c) an explicit offset far beyond the current length of the buffer, on a fresh instance and after earlier growth (fixed defect
+    # 4022683: more than one growth quantum ahead was written past the mapping); what the instance assembled before must not matter
+    for k in (6021, 7000, 11999, 12001, 12290, 13000, 19000, 30000):
+        for warm in (0, 1, 2):
+            for mi, mode in enumerate(("plain", "fit9", "count16")):
+                if cx.tier == "quick" and (k + warm + mi) % 2:
+                    continue
+                prog = b"\n".join([finals[(k + mi) % len(finals)], b"clc", b"mov rax, 0x1234", b"ret"])
+
+                def ops_for(i, k=k, warm=warm, mode=mode, prog=prog):
+                    o = []
+                    if warm:
+                        o += ["A %d %s" % (i, cases.hexs(b"mov rax, 0x1122334455667788\n" * (650 * warm)))]
+                    if mode.startswith("fit"):
+                        o.append("K %d %s" % (i, mode[3:]))
+                    o.append("O %d %d" % (i, k))
+                    if mode.startswith("count"):
+                        o.append("C %d 16 %s 1" % (i, cases.hexs(prog)))
+                    else:
+                        o.append("A %d %s" % (i, cases.hexs(prog)))
+                    o.append("D %d %d %d" % (i, k, k + 60))
+                    return o
+                hists.append(twin(ops_for))
+                meta.append(("far-offset", k, warm, mode))
     ops, out = tie_api_mod_lf(cx, impl, hists, "C08 internal buffer vs large caller buffer")
     # oracle: internal and caller-buffer runs agree op by op (return values, offsets, dumped bytes)
     pos, nviol, ngrow = 0, 0, 0
@@ -1071,9 +1099,28 @@ def check_C15(cx):
             cx.violations.append({"kind": "history", "after_history": used[ne:], "fresh": fresh[ne:],
                                   "what": "the same call with the same options, chunk setting and offset behaves differently after this history "
                                           "than on a fresh instance", "history": [x[:200] for x in h]})
+    # library-managed buffers: how much the instance has assembled (and grown) before must not matter for a call at an explicit offset
+    ihists = []
+    fin = b"mov rax, 0x1122334455667788\nadd rax, rcx\nret"
+    for k in (0, 5990, 6021, 7000, 12001, 13000, 25000):
+        for warm in (1, 2, 4):
+            ihists.append(["N 0 -", "A 0 %s" % cases.hexs(b"mov rax, 0x1122334455667788\n" * (650 * warm)), "O 0 %d" % k,
+                           "A 0 %s" % cases.hexs(fin), "G 0", "D 0 %d %d" % (k, k + 14), "F 0",
+                           "N 0 -", "O 0 %d" % k, "A 0 %s" % cases.hexs(fin), "G 0", "D 0 %d %d" % (k, k + 14), "F 0"])
+    iops, iout = tie_api_mod_lf(cx, impl, ihists, "C15 explicit offsets on used and fresh library-managed buffers")
+    pos = 0
+    for h in ihists:
+        o = iout[pos:pos + len(h)]
+        pos += len(h)
+        if len(o) == len(h) and o[3:6] != o[9:12] and nviol < 8:
+            nviol += 1
+            cx.violations.append({"kind": "history-internal", "after_history": o[3:6], "fresh": o[9:12],
+                                  "what": "the same call at the same explicit offset behaves differently on a library-managed buffer that has "
+                                          "assembled (and grown) before than on a fresh one", "history": [x[:120] for x in h]})
     cx.nontrivial.update(tuple(h) for h in hists)
     cx.cov["samples"] = [hists[7], hists[-1]]
-    cx.dist = {"alphabet": len(alphabet), "exhaustive_up_to_len": maxlen, "exhaustive_histories": nex, "random_histories": len(hists) - nex}
+    cx.dist = {"alphabet": len(alphabet), "exhaustive_up_to_len": maxlen, "exhaustive_histories": nex, "random_histories": len(hists) - nex,
+               "internal_buffer_histories": len(ihists)}
     return finish(cx, "every history of up to %d calls from a %d-call alphabet (successful and failing assemblies, counting calls incl. "
                   "NULL dest and c<2, chunk/option/offset changes, another instance created-used-destroyed) followed by explicit settings, "
                   "asm_set_offset and a final call, compared output by output with the same block on a fresh instance over a different "
@@ -2170,6 +2217,7 @@ OS_HARMLESS = {"free", "fprintf", "printf", "puts", "putchar", "perror", "stderr
 FAULT_SCENARIOS = ["create_int", "create_ext", "growth", "file", "file_count", "binfile"]
 # a refused growth in chunk-fitting / counting mode: the room check after the NOP padding is a growth point of its own, reached only
 # for chunk sizes and alignments where the padding carries the position over the threshold
+FAULT_GROWTH_BIG = ["growthbigfit:16", "growthbigcount:16", "growthbigfit:9", "growthbigcount:7"]
 FAULT_GROWTH_MODES = ["growthfit:%d:%d" % (c, lead) for c in (7, 11, 13, 24) for lead in range(0, 100)] + \
                      ["growthcount:%d:%d" % (c, lead) for c in (7, 16) for lead in (0, 33, 77)]
 FILE_TEXT = b"mov rcx, 0x5\nadd rcx, rdx\nnop\nret\n"
@@ -2237,10 +2285,16 @@ def model_fault(sc, kind, k, counts):
     if sc.startswith("growth"):
         mode, chunk, lead = (sc.split(":") + ["0", "0"])[:3]
         big = BIG_TEXT if mode == "growth" else b"mov rdx, 0x1122334455667788\n" * 40
+        if mode in ("growthbigfit", "growthbigcount"):
+            big = BIG_TEXT
         if mode == "growthfit":
             ops += ["O 0 %d" % (5900 + int(lead)), "K 0 %s" % chunk, "A 0 %s" % cases.hexs(big), "K 0 0"]
         elif mode == "growthcount":
             ops += ["O 0 %d" % (5900 + int(lead)), "C 0 %s %s 1" % (chunk, cases.hexs(big))]
+        elif mode == "growthbigfit":
+            ops += ["K 0 %s" % chunk, "A 0 %s" % cases.hexs(big), "K 0 0"]
+        elif mode == "growthbigcount":
+            ops += ["C 0 %s %s 1" % (chunk, cases.hexs(big))]
         else:
             ops += ["A 0 %s" % cases.hexs(big)]
     elif sc in ("file", "file_count"):
@@ -2264,7 +2318,8 @@ def model_fault(sc, kind, k, counts):
     out = run(ops)
     exp["asm1"], exp["off1"] = out[1].split()[0], out[1].split()[1]
     exp["code1"] = out[2]
-    step = out[5].split() if sc.startswith("growthfit") else out[4].split() if sc.startswith("growthcount") else out[3].split()
+    step = out[5].split() if sc.startswith("growthfit") else out[4].split() if sc.startswith("growthcount") else \
+        out[4].split() if sc.startswith("growthbigfit") else out[3].split()
     if sc.startswith("growth"):
         exp["asm2"], exp["off2"] = step[0], step[1]
     elif sc in ("file", "file_count"):
@@ -2312,7 +2367,7 @@ def check_C17(cx):
     nsched = nfired = 0
     fired_by_kind = collections.Counter()
     samples = []
-    for sc in FAULT_SCENARIOS + (FAULT_GROWTH_MODES if cx.tier == "thorough" else FAULT_GROWTH_MODES[::2]):
+    for sc in FAULT_SCENARIOS + FAULT_GROWTH_BIG + (FAULT_GROWTH_MODES if cx.tier == "thorough" else FAULT_GROWTH_MODES[::2]):
         rc, ended, base, err = run_fault(impl, sc, "none", 0, tmpdir)
         if rc != 0 or not ended:
             cx.violations.append({"kind": "crash", "scenario": sc, "fault": "none", "rc": rc, "stderr": err, "what": "scenario crashes without any fault"})
@@ -2417,7 +2472,7 @@ def stores_to(sym):
     return hits
 
 
-THR_WRAP = "-Wl,--wrap=mmap,--wrap=mremap,--wrap=munmap"
+THR_WRAP = "-Wl,--wrap=mmap,--wrap=mremap,--wrap=munmap,--wrap=open,--wrap=fstat,--wrap=read,--wrap=close"
 
 
 def check_C18(cx):
@@ -2540,10 +2595,35 @@ def check_C18(cx):
                 break
             cx.count(int(m.group(3)), [])
     cx.oblige("OS-call schedules: thread A was held after an OS call in at least 5 schedules per build", held_os >= 10, "held in %d of %d" % (held_os, nos))
+    # two-point schedules over the file entry points' OS calls (descriptor table): A held after its ka-th call, B after its kb-th
+    thrtmp = os.path.join(alv.CACHE, "thrtmp")
+    os.makedirs(thrtmp, exist_ok=True)
+    nos2 = both = 0
+    impl = build_impl(cx, name="thrdrv", flavour="o2", extra_flags=(THR_WRAP,))
+    stop = False
+    for ka in range(1, 13 if quick else 20):
+        for kb in range(1, 9 if quick else 12):
+            p = subprocess.run([impl, "os2", str(ka), str(kb), thrtmp], stdout=subprocess.PIPE, stderr=subprocess.PIPE, timeout=600)
+            out = p.stdout.decode("latin1").strip().split("\n")
+            m = re.search(r"held_a=(\d) held_b=(\d) steps=(\d+) mismatches=(\d+)", out[-1] if out else "")
+            nos2 += 1
+            both += 1 if m and m.group(1) == "1" and m.group(2) == "1" else 0
+            if p.returncode != 0 or not m or m.group(4) != "0":
+                cx.violations.append({"kind": "interleaving", "schedule": "file entry points: thread A (directory path, file, missing path) held after its %d-th "
+                                      "OS call, thread B (its own file) held after its %d-th, A finishes, then B" % (ka, kb),
+                                      "replay_cmd": "thrdrv os2 %d %d <dir>" % (ka, kb), "exit": p.returncode, "result": out[-4:],
+                                      "stderr": p.stderr.decode("latin1")[-400:],
+                                      "what": "a thread using only its own instance and file does not get the results it gets when running alone"})
+                stop = True
+                break
+            cx.count(int(m.group(3)), [])
+        if stop:
+            break
+    cx.oblige("two-point file schedules: both threads were held in at least 20 schedules", both >= 20 or stop, "both held in %d of %d" % (both, nos2))
     cx.nontrivial.update((r[0], r[1], r[2]) for r in runs)
     cx.nontrivial.update(("sched", k) for k in range(1, nsched + 1))
     cx.cov["samples"] = runs[:4]
-    cx.dist = {"runs": runs, "globals": sorted(glob)[:8], "scheduled_interleavings": nsched, "os_call_interleavings": nos}
+    cx.dist = {"runs": runs, "globals": sorted(glob)[:8], "scheduled_interleavings": nsched, "os_call_interleavings": nos, "two_point_file_schedules": nos2}
     cx.assumptions.append("the C11 memory model for _Atomic int accesses (sequentially consistent) and libc's internal locking are assumed; races on "
                           "non-atomic objects are observed by ThreadSanitizer over the schedules that occurred, not proved absent")
     return finish(cx, "2..64 threads each looping create (internal and caller buffer) / all three option setters / assemble in plain, fitting and "
@@ -2640,6 +2720,10 @@ def check_C19(cx):
                  ["S %d nobase %d" % (i, (opt >> 3) & 1) for i in (0, 1)]
         start = r.choice([0, 0, 7, 100])
         c = r.choice([2, 5, 16, 64])
+        # chunk fitting switched on before the file is assembled: the file entry point honours it as the string entry point does
+        if fi % 3 == 1:
+            kfit = r.choice([2, 7, 8, 16])
+            setopt = setopt + ["K 0 %d" % kfit, "K 1 %d" % kfit]
         h = ["N 0 -", "N 1 -"] + setopt + ["O 0 %d" % start, "O 1 %d" % start,
              "R 0 %s %s" % (path, cases.hexs(content)), "A 1 %s" % cases.hexs(content), "D 0 0 6000", "D 1 0 6000",
              "U 0 %d %s %s 1" % (c, path, cases.hexs(content)), "C 1 %d %s 1" % (c, cases.hexs(content)), "D 0 0 6000", "D 1 0 6000",
@@ -2718,6 +2802,10 @@ CLI_MODES = [[], ["n"], ["t"], ["s"], ["nasm-mov-imm"], ["strict-mov-imm"], ["sm
              ["strict-mov-imm", "n"], ["smart-mov-imm", "strict-sib", "nasm-sib-no-base"]]
 
 
+# output names of 95 .. 200 characters (no dot allowed in a -o name): NAME.bin has to be exactly that name
+LONG_O = {"olong95": "n" * 95, "olong96": "n" * 96, "olong100": "m" * 100, "olong200": "k" * 200}
+
+
 def cli_args(tokens, outdir):
     """argv for the flag tokens of the model's syntax"""
     av = []
@@ -2736,6 +2824,8 @@ def cli_args(tokens, outdir):
             av += ["-o", "outo"]          # (relative: the name may not contain a dot, the process runs in outdir)
         elif t == "o.":
             av += ["-o", "out.o"]
+        elif t in LONG_O:
+            av += ["-o", LONG_O[t]]
         else:
             av.append("--" + t)
     return av
@@ -2776,7 +2866,8 @@ def check_C20(cx):
     for _ in range(3 if quick else 30):
         progs.append(g.program(r.choice([4, 12, 40])))
     progs = [bytes(x for x in p if x != 0) for p in progs]
-    outs = [[], ["p"], ["P"], ["o"], ["b=4"], ["b=16"], ["c=8"], ["p", "c=8"], ["p", "b=5"], ["P", "c=16"], ["p", "P"], ["Pbad"], ["c=1"], ["b=0"], ["o."]]
+    outs = [[], ["p"], ["P"], ["o"], ["b=4"], ["b=16"], ["c=8"], ["p", "c=8"], ["p", "b=5"], ["P", "c=16"], ["p", "P"], ["Pbad"], ["c=1"], ["b=0"], ["o."],
+            ["olong95"], ["olong96"], ["olong100"], ["olong200", "p"]]
     cases_ = []
     for pi, prog in enumerate(progs):
         modes = CLI_MODES if pi == 0 else r.sample(CLI_MODES, 4 if quick else 10)
@@ -2795,7 +2886,7 @@ def check_C20(cx):
         prog = progs[pi]
         path = os.path.join(tmp, "in.asm")
         open(path, "wb").write(prog)
-        for f in ("outP.bin", "outo.bin", "out.o.bin"):
+        for f in ["outP.bin", "outo.bin", "out.o.bin"] + [f_ for f_ in os.listdir(tmp) if f_[:1] in "nmk" and len(f_) > 90]:
             try:
                 os.unlink(os.path.join(tmp, f))
             except OSError:
@@ -2805,11 +2896,11 @@ def check_C20(cx):
                            timeout=300, cwd=tmp, env=dict(os.environ, ASAN_OPTIONS="detect_leaks=0"))
         so = p.stdout.decode("latin1")
         filebytes = None
-        for f in ("outP.bin", "outo.bin"):
+        for f in ["outP.bin", "outo.bin"] + [LONG_O[t] + ".bin" for t in toks if t in LONG_O]:
             fp = os.path.join(tmp, f)
             if os.path.exists(fp):
                 filebytes = open(fp, "rb").read().hex() or "-"
-        model_toks = [("P" if t == "Pbad" else t) for t in toks]
+        model_toks = [("P" if t == "Pbad" else "o" if t in LONG_O else t) for t in toks]
         ops.append("CL %s %d %s %d" % (",".join(model_toks) or "-", stdin, cases.hexs(prog), 0 if "Pbad" in toks else 1))
         se = p.stderr.decode("latin1")
         k = se.find("ERROR: AddressSanitizer")
@@ -2827,7 +2918,7 @@ def check_C20(cx):
         # correspondence with the model: exit status, binary file, count
         if str(xrc) != mexit:
             mism.append({**tag, "what": "exit status", "asmline": xrc, "model": mexit, "stderr": err})
-        if mexit == "0" and ("P" in toks or "o" in toks) and fb != mcode:
+        if mexit == "0" and ("P" in toks or "o" in toks or any(t in LONG_O for t in toks)) and fb != mcode:
             mism.append({**tag, "what": "binary output file", "asmline": fb, "model": mcode})
         if mexit == "0" and mcount != "-":
             m = re.search(r"^(-?\d+)( instructions break a chunk boundary of (\d+) bytes)?$", so, re.M)
@@ -2850,6 +2941,9 @@ def check_C20(cx):
                 bad = "-r does not print the value the code returns in rax"
         if "Pbad" in toks and xrc == 0 and not usage:
             bad = "exit status 0 although the requested output file could not be created"
+        wants_file = "P" in toks or "o" in toks or any(t in LONG_O for t in toks)
+        if wants_file and xrc == 0 and not usage and fb is None:
+            bad = "exit status 0 although the requested binary file (NAME.bin for -o NAME) does not exist afterwards"
         key = (pi, tuple(sorted(toks)))
         if not usage:
             prev = seen_by_key.get((pi, tuple(toks)))
